@@ -52,14 +52,27 @@ AllKw == UNION { Keywords(d) : d \in {3, 4, 6, 7} }
 ForeignNames(d) == { k \in AllKw : k \notin Keywords(d) }   \* other-draft keywords; arbitrary names are judged below
 IsInert(d, k) == k \notin Keywords(d) /\ k # IdKw(d) /\ k # K_required
                  /\ ~(d = 7 /\ k \in {K_then, K_else}) /\ ~(d <= 4 /\ k \in {K_exclusiveMinimum, K_exclusiveMaximum})
+\* b is schema a with inert members inserted into (sub)schema objects, at any depth.  Only schema positions may
+\* gain members: a new member of a `properties` map would be a new property, not a foreign keyword.
+SchemaMapKws   == {K_properties, K_patternProperties, K_dependencies, K_definitions}
+SchemaOrSeqKws == {K_items, K_extends, K_type, K_disallow, K_allOf, K_anyOf, K_oneOf, K_additionalItems,
+                   K_additionalProperties, K_not, K_contains, K_propertyNames, K_if, K_then, K_else}
 RECURSIVE Inserted(_, _, _)
-Inserted(d, a, b) ==      \* b is a with inert members inserted into objects, at any depth
-  IF a.t # b.t THEN FALSE
-  ELSE IF IsObj(a)
-       THEN /\ \A i \in DOMAIN a.k : HasKey(b, a.k[i]) /\ Inserted(d, a.v[i], Get(b, a.k[i]))
-            /\ \A j \in DOMAIN b.k : HasKey(a, b.k[j]) \/ IsInert(d, b.k[j])
-  ELSE IF IsArr(a) THEN Len(a.e) = Len(b.e) /\ \A i \in DOMAIN a.e : Inserted(d, a.e[i], b.e[i])
-  ELSE a = b
+InsertedVal(d, kw, x, y) ==
+  IF kw \in SchemaMapKws /\ IsObj(x) /\ IsObj(y)
+  THEN x.k = y.k /\ \A i \in DOMAIN x.k : IF IsObj(x.v[i]) THEN Inserted(d, x.v[i], y.v[i]) ELSE x.v[i] = y.v[i]
+  ELSE IF kw \in SchemaOrSeqKws
+       THEN IF IsObj(x) THEN Inserted(d, x, y)
+            ELSE IF IsArr(x) /\ IsArr(y)
+                 THEN Len(x.e) = Len(y.e) /\ \A i \in DOMAIN x.e :
+                        IF IsObj(x.e[i]) THEN Inserted(d, x.e[i], y.e[i]) ELSE x.e[i] = y.e[i]
+            ELSE x = y
+  ELSE x = y
+Inserted(d, a, b) ==
+  /\ IsObj(a) /\ IsObj(b)
+  /\ \A i \in DOMAIN a.k : HasKey(b, a.k[i]) /\ InsertedVal(d, a.k[i], a.v[i], Get(b, a.k[i]))
+  /\ \A j \in DOMAIN b.k : HasKey(a, b.k[j]) \/ IsInert(d, b.k[j])
+  /\ \A i, j \in DOMAIN a.k : (i < j) => KeyIndex(b, a.k[i]) < KeyIndex(b, a.k[j])    \* order of old members kept
 
 C10Clauses(r, res) ==
   IF ~r.hasalt THEN {}
